@@ -175,3 +175,22 @@ Lemma tx_clause_nil_refuted_l : exists t, go_decode_tx f2_clause_witness = Some 
 Proof. eexists. split; [vm_compute; reflexivity|]. split; [reflexivity|]. split; [reflexivity|]. vm_compute. discriminate. Qed.
 Lemma tx_decode_canonical_statement_refuted_l : ~ (forall b t, go_decode_tx b = Some t -> go_reencode_tx t = b).
 Proof. intros S. destruct tx_depends_nil_refuted_l as [t [Hd [_ [_ Hn]]]]. exact (Hn (S _ _ Hd)). Qed.
+
+(* ------------------------------------------------------------------ re-encoding and decoding again gives the same Go object, hence the same hash / id preimages *)
+Lemma norm_nil_idem v : norm_nil (norm_nil v) = norm_nil v.
+Proof. destruct v; reflexivity. Qed.
+Lemma norm_tx_idem t : norm_tx (norm_tx t) = norm_tx t.
+Proof.
+  destruct t as [dy ct br ex cl gpc pr fe gas dep no res sg]. unfold norm_tx.
+  cbn [t_depends t_clauses t_dyn t_chain_tag t_block_ref t_expiration t_gpc t_max_prio t_max_fee t_gas t_nonce t_reserved t_sig].
+  rewrite norm_nil_idem. f_equal. rewrite map_map. apply map_ext. intros [to v d]. unfold norm_clause. cbn [c_to c_value c_data].
+  rewrite norm_nil_idem. reflexivity.
+Qed.
+Theorem tx_reencode_same_object_l b t : go_decode_tx b = Some t ->
+  go_decode_tx (go_reencode_tx t) = Some (norm_tx t) /\
+  go_signing_tx (norm_tx t) = go_signing_tx t /\ go_marshal_tx (norm_tx t) = go_marshal_tx t.
+Proof.
+  intros H. apply tx_decode_sound_l in H. destruct H as [_ W]. split.
+  - unfold go_reencode_tx. apply tx_roundtrip_l. exact (proj1 (lp_tx t W)).
+  - unfold go_signing_tx, go_marshal_tx. rewrite norm_tx_idem. split; reflexivity.
+Qed.
